@@ -540,12 +540,15 @@ impl OsIpcReceiverSet {
 
     pub fn add(&mut self, receiver: OsIpcReceiver) -> Result<u64, UnixError> {
         let last_index = self.incrementor.next().unwrap();
-        let fd = receiver.consume_fd();
+        // The set takes the descriptor over only once it is registered: if registering fails,
+        // `receiver` still owns it and closes it when it is dropped on return.
+        let fd = receiver.fd.get();
         let fd_token = Token(fd as usize);
         let poll_entry = PollEntry { id: last_index, fd };
         self.poll
             .registry()
             .register(&mut SourceFd(&fd), fd_token, Interest::READABLE)?;
+        receiver.consume_fd();
         self.pollfds.insert(fd_token, poll_entry);
         Ok(last_index)
     }
